@@ -10,6 +10,7 @@ stdin: {"mode": "hist", "cases": [case...]}            -> [[obs per step] per ca
 case: {"target": "plain"|"obj", "vk": "VAll|VInt|VCInt", "init": [atoms], "ops": [...],
        "minlen": int (obj), "maxlen": int|None (obj)}
 """
+import copy
 import operator
 import sys
 import os
@@ -119,13 +120,26 @@ def sl(t):
     return slice(t[0], t[1], t[2])
 
 
+def arg_list(tl, op, atoms):
+    """The iterable argument of extend / += / slice assignment: a plain list, or (trailing "loose" marker) a deep
+    copy of the trait list itself -- same class, same validator / trait, no owner -- filled with exactly these raw
+    items through the built-in base class, so that nothing has validated them."""
+    items = [val(a) for a in atoms]
+    if op[-1] == "loose" and isinstance(tl, list):
+        c = copy.deepcopy(tl)
+        list.clear(c)
+        list.extend(c, items)
+        return c
+    return items
+
+
 def apply_op(tl, op):
     """Returns the atom returned by the operation (pop) or None."""
     k = op[0]
     if k == "SetInt":
         tl[op[1]] = val(op[2])
     elif k == "SetSlice":
-        tl[sl(op[1])] = [val(a) for a in op[2]]
+        tl[sl(op[1])] = arg_list(tl, op, op[2])
     elif k == "DelInt":
         del tl[op[1]]
     elif k == "DelSlice":
@@ -133,9 +147,9 @@ def apply_op(tl, op):
     elif k == "Append":
         tl.append(val(op[1]))
     elif k == "Extend":
-        tl.extend([val(a) for a in op[1]])
+        tl.extend(arg_list(tl, op, op[1]))
     elif k == "Iadd":
-        r = operator.iadd(tl, [val(a) for a in op[1]])
+        r = operator.iadd(tl, arg_list(tl, op, op[1]))
         if r is not tl:
             raise RuntimeError("+= returned a new object")
     elif k == "Imul":
